@@ -493,3 +493,90 @@ def c18(ctx):
     ctx.extra_cov["exhaustive_subspace"] = "all transient prefixes of length <= %d x 6 endings per build variant" % K
     ctx.assumptions += ["EOF from /dev/urandom and short getrandom() returns are outside the property's fault alphabet",
                         "libc-boundary interposition assumes the library reaches the OS through getrandom/getentropy/syscall/open/read/close"]
+
+
+# ---------------------------------------------------------------------------------- C20
+
+@check("C20", "exploration", floor=3000)
+def c20(ctx):
+    import subprocess
+    from concurrent.futures import ThreadPoolExecutor
+    load_replay(ctx)
+    NF, NC = ctx.q((6000, 300), (60000, 600))
+    cfg_bz = ctx.make_config("bzero", BASE_CFG + ["HAVE_GETRANDOM"])
+    cfg_fb = ctx.make_config("fallback", [m for m in BASE_CFG if m != "HAVE_EXPLICIT_BZERO"] + ["HAVE_GETRANDOM"])
+    opts = ctx.q(["-O2"], ["-O0", "-O1", "-O2", "-O3", "-Os"])
+    builds = build_set(ctx, ["prod", "asan-gcc"])
+    for cc in ("gcc", "clang"):
+        for o in opts:
+            for cn, cd in (("bzero", cfg_bz), ("fallback", cfg_fb)):
+                n = "%s%s-%s" % (cc, o, cn)
+                builds.append({"tag": n, "lib": ctx.lib(n, cc, [o], cfg=cd), "cc": cc, "hflags": []})
+    n = "asan-gcc-fallback"
+    builds.append({"tag": n, "lib": ctx.lib(n, "gcc", asan_flags("gcc"), cfg=cfg_fb), "cc": "gcc", "hflags": asan_flags("gcc")})
+    jobs = []
+    for b in builds:
+        exe = ctx.harness("h_erase-" + b["tag"], "h_erase.c", b["lib"], cc=b["cc"], flags=b["hflags"], with_model=False)
+        jobs += batch_jobs(ctx, exe, b["tag"], ["--mode", "free", "--p1", NF], 2)
+        jobs += batch_jobs(ctx, exe, b["tag"], ["--mode", "clean", "--p1", NC], 2)
+    ctx.run_jobs(jobs, timeout=1800)
+
+    # ---- wipe survival in unity / LTO builds, both configurations of the primitive, with positive controls
+    if not ctx.replay:
+        clean_src = REPO + "/src/backend/tinyjambu-clean.c"
+        combos = []
+        for cc in ("gcc", "clang"):
+            for o in (["-O0"], ["-O1"], ["-O2"], ["-O3"], ["-Os"], ["-O2", "-flto"]):
+                for cn, cd in (("explicit_bzero", cfg_bz), ("volatile-fallback", cfg_fb)):
+                    combos.append((cc, o, cn, cd))
+
+        def probe(c):
+            cc, o, cn, cd = c
+            exe = os.path.join(ctx.scratch, "wp-%s%s-%s" % (cc, "".join(o), cn))
+            pr = subprocess.run([cc] + o + ["-DHAVE_CONFIG_H", "-I" + cd, "-DCLEAN_SRC=\"%s\"" % clean_src, VERIF + "/harness/wipe_probe.c",
+                                 "-Wl,-z,now", "-o", exe], stdout=subprocess.PIPE, stderr=subprocess.PIPE)
+            if pr.returncode:
+                return c, None, pr.stderr.decode()[-500:]
+            pr = subprocess.run([exe], stdout=subprocess.PIPE, stderr=subprocess.PIPE, timeout=60)
+            return c, pr.stdout.decode(), pr.stderr.decode()[-300:]
+        with ThreadPoolExecutor(NCPU) as ex:
+            res = list(ex.map(probe, combos))
+        ctl_seen = 0
+        for (cc, o, cn, cd), out, err in res:
+            tag = "%s %s %s" % (cc, " ".join(o), cn)
+            if out is None:
+                ctx.inconclusive.append("wipe probe failed to build for %s: %s" % (tag, err))
+                continue
+            vals = {}
+            for l in out.splitlines():
+                parts = l.split()
+                if len(parts) == 3:
+                    vals[parts[0]] = (int(parts[1].split("=")[1]), int(parts[2].split("=")[1]))
+            ctx.count("wipe_probe_configurations", 1)
+            ctx.count("evaluations", 1)
+            ctx.add_classes([("wipe", cc, tuple(o), cn)])
+            if "real" not in vals:
+                ctx.inconclusive.append("wipe probe gave no result for %s" % tag)
+                continue
+            if vals["real"][0] != 64:
+                ctx.violation("wipe-optimised-away:%s" % cn,
+                              {"build": "wipe-probe " + tag, "detail": "after tinyjambu_clean(buf, 64) on a dying local buffer %d bytes are zero and %d still hold the secret (unity build, optimiser sees the primitive)" % vals["real"]})
+            if o != ["-O0"]:
+                for ctl in ("memset", "loop"):
+                    if vals.get(ctl, (64, 0))[1] >= 32:
+                        ctl_seen += 1
+            if len(ctx.samples) < 12 and o in (["-O2"], ["-O2", "-flto"]):
+                ctx.samples.append({"h": "wipe-probe", "config": tag, "result": out.strip().replace("\n", "; ")})
+        ctx.count("positive_control_weak_wipes_caught", ctl_seen)
+        if ctl_seen < 8:
+            ctx.inconclusive.append("positive controls (memset / plain loop wipes) were not seen to fail at >= -O1: the probe cannot see a deleted wipe here")
+    ctx.rule = ("(a) 4 state types x random histories (0..8 operations incl. finalize/reinit/exhaustion/reseed, cut at a random point) then the free "
+                "function; all sizeof(public state) bytes read back; object against a guard page or between canaries; (b) tinyjambu_clean for EVERY "
+                "(offset 0..15, size 0..N) + sizes {4095,4096,4097,65535,65536,1 MiB+3}, junk arena compared byte by byte; every third case ends exactly "
+                "at a guard page; (c) wipe-survival probe: unity TU including /repo's tinyjambu-clean.c, {explicit_bzero, volatile fallback} x {gcc, clang} x "
+                "{-O0,-O1,-O2,-O3,-Os,-O2 -flto}; the dead buffer is read at its recorded address; memset/plain-loop controls must be seen to fail. "
+                "Configurations of (a),(b): cmake production library, ASan/UBSan, and {gcc, clang} x opt levels x {explicit_bzero, fallback}. "
+                "class = (type, history index) | (offset, size) | probe configuration.")
+    ctx.exhaustive = False
+    ctx.assumptions += ["copies of secrets in registers or compiler spills outside the wiped buffer are not part of the property",
+                        "SecureZeroMemory / memset_s configurations do not exist on this host and are not run"]
